@@ -47,6 +47,10 @@ func (s *SwaggerExporter) GenerateSwagger() error {
 	// parse endpoints
 	endpointExporter := makeEndpointExporter(typeExporter, s.log)
 	for endpointName, endpoint := range s.app.Endpoints {
+		if endpoint.GetRestParams() == nil {
+			// only REST endpoints ("GET /path") can be expressed as Swagger paths
+			continue
+		}
 		err := endpointExporter.populateEndpoint(endpointName, endpoint, s.buildSwagger.Paths.Paths)
 		if err != nil {
 			return err
